@@ -234,3 +234,16 @@ v("sr-log-metric", ["C16", "C08"], "semiring.py", "class Log(Semiring):\n    def
 v("sr-expectation-cross", ["C16"], "semiring.py", "            self.score[0] * other.score[1] + other.score[0] * self.score[1],", "            self.score[0] * other.score[1] + other.score[1] * self.score[1],", "SR-TABLE")
 v("sr-benign-commute", ["C16"], "semiring.py", "            self.score[0] * other.score[1] + other.score[0] * self.score[1],", "            other.score[0] * self.score[1] + other.score[1] * self.score[0],", None)
 v("sr-benign-real", ["C16"], "semiring.py", "        return Real(self.score * other.score)", "        return Real(other.score * self.score)", None)
+
+# ------------------------------------------------------------------ Earley / CKY slots
+v("earley-scan-wrong-col", ["C02", "C04", "C01"], "parse/earley.py", "        for item in prev_col.waiting_for.get(token, ()):", "        for item in prev_cols[0].waiting_for.get(token, ()):", "FACTOR-EARLEY")
+v("earley-attach-no-y", ["C02", "C04", "C01"], "parse/earley.py", "_update(next_col, Q, I, X, rest_Ys[Ys], col_J_i_chart[customer] * y)", "_update(next_col, Q, I, X, rest_Ys[Ys], col_J_i_chart[customer])", "FACTOR-EARLEY")
+v("earley-attach-wrong-column", ["C02", "C04"], "parse/earley_rescaled.py", "            col_J = prev_cols[J]\n", "            col_J = prev_cols[-1]\n", "FACTOR-EARLEY")
+v("earley-scan-no-rescale", ["C04", "C02"], "parse/earley_rescaled.py", "                prev_col_i_chart[item] * prev_col.rescale,", "                prev_col_i_chart[item],", "FACTOR-EARLEY")
+v("earley-predict-before-drain", ["C02", "C04"], "parse/earley.py", "        Q = LocatorMaxHeap()\n", "        Q = LocatorMaxHeap()\n        self.PREDICT(next_col)\n", "FACTOR-EARLEY")
+v("earley-dot-not-advanced", ["C02", "C01"], "parse/earley.py", "            _update(next_col, Q, I, X, rest_Ys[Ys], prev_col_i_chart[item])", "            _update(next_col, Q, I, X, Ys, prev_col_i_chart[item])", "FACTOR-EARLEY")
+v("earley-benign-inline-alias", ["C02", "C04", "C01"], "parse/earley.py", "            _update(next_col, Q, I, X, rest_Ys[Ys], prev_col_i_chart[item])", "            _update(next_col, Q, I, X, self.rest_Ys[Ys], prev_col.i_chart[item])", None)
+v("nexttok-no-unit-filter", ["C01", "C04"], "parse/earley.py", "                    if self.unit_Ys[Ys]:\n                        node = (I, X)", "                    if True:\n                        node = (I, X)", "FACTOR-NEXTTOK")
+v("nexttok-seed", ["C01", "C04"], "parse/earley.py", "        q[0, self.cfg.S] = self.cfg.R.one\n\n        col = cols[-1]", "        q[0, self.cfg.S] = self.cfg.R.one\n        q[1, self.cfg.S] = self.cfg.R.one\n\n        col = cols[-1]", "FACTOR-NEXTTOK")
+v("icky-outside-wrong-child", ["C01", "C04", "C02"], "parse/cky.py", "                        α_j[Z] += r.w * y * α_i[X]", "                        α_j[Z] += r.w * α_i[X]", "FACTOR-ICKY")
+v("icky-preterminal-cell", ["C02", "C01", "C04"], "parse/cky.py", "        tmp = new[k - 1]\n        for r in self.terminal[prefix[k - 1]]:", "        tmp = new[k]\n        for r in self.terminal[prefix[k - 1]]:", "FACTOR-ICKY")
